@@ -10,11 +10,13 @@
       sysm = A@Cx@A.T + Ce
       x_MAP = x0 + Cx@(A.T@np.linalg.solve(sysm, rhs))
 
-  evaluated on whatever arrays the `cov` getters return (after `np.size(C)==1 → C.ravel()[0]*eye`).
+  evaluated on whatever arrays the `cov` getters return, after `np.size(C)==1 → C.ravel()[0]*eye`
+  and (since repo commit 0527445) `np.ndim(C)==1 → np.diag(C)`.
   The model transcribes *numpy's semantics* of `@`, `+`, `-`, `.T` and `linalg.solve` on arrays of
   rank 0, 1, 2 (`NArr`), so that the three lines are transcribed literally — including what they do
-  to a 1-D covariance vector (broadcast, not `diag`), to a scalar prior mean, and to a stored
-  matrix whose shape is not `(range_dim, domain_dim)`.
+  to a scalar prior mean, to a covariance of the wrong size, and to a stored matrix whose shape is
+  not `(range_dim, domain_dim)`.  (`_sampleMapCholesky` has only the scalar expansion: a 1-D
+  covariance vector reaches `np.linalg.inv` and is refused there.)
 
   Numbers live in an arbitrary carrier `R`; the driver runs `R = Rat`.  `linalg.solve` is a
   *certified oracle*: the model is parametrised by an untrusted `Solver` whose answer is accepted
@@ -156,7 +158,12 @@ def getCov (c : Option (NArr R)) : Except Err (NArr R) :=
 def expandScalar (C : NArr R) (dim : Nat) : NArr R :=
   if C.size = 1 then NArr.scale C.first (eye dim) else C
 
-/-- `BayesianProblem.MAP`, direct branch (l.265-280), literally. `A = model.get_matrix()`,
+/-- `if np.ndim(C)==1: C = np.diag(C)` -/
+def diagIfVec : NArr R → NArr R
+  | .v l f => .m l l (fun i j => if i = j then f i else 0)
+  | a => a
+
+/-- `BayesianProblem.MAP`, direct branch (l.265-285), literally. `A = model.get_matrix()`,
     `rangeDim/domainDim = model.range_dim/domain_dim` (the *geometries'* `par_dim`),
     `ce/cx` = what the `cov` getters of the likelihood's distribution / the prior hold,
     `x0 = prior.mean`, `b = data`. -/
@@ -164,8 +171,8 @@ def mapDirect [DecidableEq R] (slv : Solver R) (A : NArr R) (rangeDim domainDim 
     (ce cx : Option (NArr R)) (x0 b : NArr R) : Except Err (NArr R) := do
   let Ce ← getCov ce
   let Cx ← getCov cx
-  let Ce := expandScalar Ce rangeDim
-  let Cx := expandScalar Cx domainDim
+  let Ce := diagIfVec (expandScalar Ce rangeDim)
+  let Cx := diagIfVec (expandScalar Cx domainDim)
   let Ax0 ← A.matmul x0
   let rhs ← b.sub Ax0
   let ACx ← A.matmul Cx
@@ -234,8 +241,9 @@ def draw (n : Nat) (xmap : Nat → R) (L : Nat → Nat → R) (xi : Nat → R) :
 def postPrec (m : Nat) (A We Wx : Nat → Nat → R) : Nat → Nat → R :=
   fun j k => sumTo m (fun i => A i j * sumTo m (fun l => We i l * A l k)) + Wx j k
 
-/-- Shape part of `_sampleMapCholesky` up to the factorisation: the getters, the scalar expansion,
-    `self.MAP(disp=False)`, then `inv(Ce)`, `inv(Cx)` (1-D arrays: `LinAlgError`).  Returns the
+/-- Shape part of `_sampleMapCholesky` up to the factorisation: the getters, the scalar expansion
+    (only that: no `np.diag` here), `self.MAP(disp=False)`, then `inv(Ce)`, `inv(Cx)`
+    (1-D arrays: `LinAlgError`).  Returns the
     MAP estimate the draws are centred on. -/
 def sampleCentre [DecidableEq R] (slv : Solver R) (A : NArr R) (rangeDim domainDim : Nat)
     (ce cx : Option (NArr R)) (x0 b : NArr R) : Except Err (NArr R) := do
